@@ -583,6 +583,12 @@ def run_sweep(ctx, bdir, tier):
         return err
     with concurrent.futures.ThreadPoolExecutor(max_workers=shards) as ex:
         list(ex.map(one, range(shards)))
+    if tier != "quick":         # the thorough sweep is a superset of the quick one (different rotations of the pairwise grid)
+        qp = ctx.path("obs_quick.ndjson")
+        rc, _, err = vlib.run_harness(ctx, bdir, "x86sweep", ["sweep", ctx.path("forms.ndjson"), qp, "quick"], timeout=1200, env={"VERIF_SEED": ctx.seed})
+        if rc != 0:
+            raise Broken(f"x86sweep failed rc={rc}: {err[-1500:]}")
+        outs.append(qp)
     return outs
 
 
